@@ -316,7 +316,7 @@ func slotsHex(r *h.Rng) string {
 
 func gen(rng *h.Rng, tier string, emit func(string)) {
 	st := h.Stats{}
-	ncases := 1200
+	ncases := 800
 	if tier == "thorough" {
 		ncases = 40000
 	}
